@@ -166,6 +166,17 @@ def _cg_nystrom(A, b, rank=2, key=None, **kw):
     return cg(A, b, P=P, **kw)
 
 
+@reg("nystrom_pipeline", "keyed")
+def _nystrom_pipeline(A, b, rank=2, key=None, max_iters=3):
+    """Typical preconditioned workflow: P, P^-1, P^1/2 (structural rules of the preconditioning module), CG with P."""
+    pre = _lazy_import("cola.linalg.preconditioning.preconditioners")
+    P = pre.NystromPrecond(A, rank, key=key)
+    Pinv = pre.inverse(P)
+    Psq = pre.sqrt(P)
+    x, info = cg(A, b, P=P, max_iters=max_iters)
+    return [P @ b, Pinv @ b, Psq @ b, x, info]
+
+
 @reg("adanys", "keyed", "unkeyed")
 def _adanys(A, rank=2, bounds=(0.1, 0.5, 2.0), **kw):
     pre = _lazy_import("cola.linalg.preconditioning.preconditioners")
